@@ -44,14 +44,14 @@ prop('C03',
      technique='table agreement; decision-table extraction over the complete finite domain of the decision variables')
 
 prop('C04',
-     rules=['EXC-VISITOR', 'TAB-OPS', 'TAB-BRK', 'TAB-QUOTE', ('EXC-FMT', ['abbreviation']), ('CNT-DEPTH', ['abbreviation']), 'API-SPLITLINES', 'SIB-SPLITLINES', 'SIB-QUOTE', 'PATH-EMIT-HTML', 'PATH-EMIT-INDENT', 'EXC-RET-STR', 'DEC-TOKCTX', 'PIN-WRAPTEXT', ('SIB-ESCAPE', ['abbreviation'])],
+     rules=['EXC-VISITOR', 'TAB-OPS', 'TAB-BRK', 'TAB-QUOTE', ('EXC-FMT', ['abbreviation']), ('CNT-DEPTH', ['abbreviation']), 'API-SPLITLINES', 'SIB-SPLITLINES', 'SIB-QUOTE', 'PATH-EMIT-HTML', 'PATH-EMIT-INDENT', 'EXC-RET-STR', 'DEC-TOKCTX', 'PIN-WRAPTEXT', ('SIB-ESCAPE', ['abbreviation']), ('DEC-CHARCLASS', ['abbreviation', 'scanner_utils'])],
      explanation='Every structural character that can occur inside text has a printer that gives the same character back (D at table level).',
      not_decided=['escape handling, nested brace extraction, placement of wrap text at the deepest node (value-level)',
                   'str.splitlines() also splits on VT/FF/FS/GS/RS/NEL/LS/PS (recorded as known finding by rule API-SPLITLINES when built)'],
      technique='visitor exhaustiveness and table agreement')
 
 prop('C05',
-     rules=[('NUM-LEFTPAD', ['stylesheet', 'css_abbreviation']), 'NUM-SHORTHEX', 'DEC-UNIT', 'TAB-UNITS', 'TAB-CSSOPS', 'TAB-KEYS-OPT', ('EXC-NUMCONV', ['css_abbreviation', 'stylesheet']), ('EXC-FMT', ['stylesheet']), ('CNT-DEPTH', ['css_abbreviation'])],
+     rules=[('NUM-LEFTPAD', ['stylesheet', 'css_abbreviation']), 'NUM-SHORTHEX', 'DEC-UNIT', 'TAB-UNITS', 'TAB-CSSOPS', 'TAB-KEYS-OPT', ('EXC-NUMCONV', ['css_abbreviation', 'stylesheet']), ('EXC-FMT', ['stylesheet']), ('CNT-DEPTH', ['css_abbreviation']), ('DEC-CHARCLASS', ['css_abbreviation', 'scanner_utils']), ('OWN-GLOBAL', ['stylesheet'])],
      explanation='Hex printing (left padding, short form only when r, g and b allow it, r-g-b order) is decided over all 256 channel values (D); '
                  'the unit decision is extracted as a complete table (N); alias/unit/separator tables are the documented ones (D).',
      not_decided=['tokenisation of number/unit/dash/colour sequences', 'frac() rounding'],
@@ -75,7 +75,7 @@ prop('C07',
      technique='call-graph reachability of raise sites; per-family exception lints with reviewed tables')
 
 prop('C08',
-     rules=['OWN-GLOBAL', 'OWN-DEFAULT', 'OWN-CALLER', 'OWN-RESTORE', 'OWN-CACHE', 'OWN-AMBIENT', 'OWN-ASTLIST', 'DEC-SCOPE', 'ORD-MERGE'],
+     rules=['OWN-GLOBAL', 'OWN-DEFAULT', 'OWN-CALLER', 'OWN-RESTORE', 'OWN-CACHE', 'OWN-CACHEUSE', 'OWN-AMBIENT', 'OWN-ASTLIST', 'DEC-SCOPE', 'ORD-MERGE'],
      explanation='Decides purity for the state the library itself keeps or touches, on every path and call chain: no module-level object is mutated and '
                  'no module-level name assigned (D), no mutable default argument is mutated (D), nothing reachable from the caller\'s config / Config / '
                  'global config / options is mutated except the cache slot and the verified temporary override of `text`, which is restored in a finally '
@@ -89,7 +89,7 @@ prop('C08',
 prop('C09',
      rules=['RNG-STRICT/html', 'TAB-VOID', 'EXC-THROWS', 'EXC-RAISE/matcher', ('RNG-STOP', ['html_matcher']), ('RNG-FRAME', ['html_matcher']), ('SCN-REST', ['html_matcher', 'scanner_utils']), ('SCN-OVER', ['html_matcher', 'scanner_utils']), ('SCN-PROGRESS', ['html_matcher', 'scanner_utils']),
             ('SCN-SKIP', ['html_matcher', 'scanner_utils']), 'SIB-VOID', ('SIB-QUOTE', ['scanner_utils']), ('PATH-FLAG', ['html_matcher']), ('CNT-DEPTH', ['scanner_utils']),
-            'SIB-HTMLSTACK', ('SIB-ESCAPE', ['scanner_utils']), ('PIN-EXTRACT', ['html_matcher'])],
+            'SIB-HTMLSTACK', ('SIB-ESCAPE', ['scanner_utils']), ('PIN-EXTRACT', ['html_matcher']), ('DEC-CHARCLASS', ['html_matcher', 'scanner_utils'])],
      explanation='match and balanced_outward use one strict containment predicate with the same bounds (N); the void list is the HTML void set and '
                  'void handling depends on xml mode as documented (D); scanner helpers are never asked to throw (D).',
      not_decided=['"innermost" and exactness of ranges for arbitrary documents (value-level)'],
@@ -104,7 +104,7 @@ prop('C10',
      technique='sentinel-flow analysis through callbacks; guard dominance')
 
 prop('C11',
-     rules=[('RNG-CLAMP', ['extract_abbreviation']), 'TAB-BRACEPAIRS', 'RNG-LOOKAHEAD', ('PIN-EXTRACT', ['extract_abbreviation']), ('SCN-OVER', ['extract_abbreviation']), ('SCN-PROGRESS', ['extract_abbreviation']), ('SCN-REST', ['extract_abbreviation'])],
+     rules=[('RNG-CLAMP', ['extract_abbreviation']), 'TAB-BRACEPAIRS', 'RNG-LOOKAHEAD', ('PIN-EXTRACT', ['extract_abbreviation']), ('DEC-CHARCLASS', ['extract_abbreviation', 'scanner_utils']), ('SCN-OVER', ['extract_abbreviation']), ('SCN-PROGRESS', ['extract_abbreviation']), ('SCN-REST', ['extract_abbreviation'])],
      explanation='The caret position is clamped before it becomes a cursor (D); bracket pairing tables agree with the predicates that guard them (D).',
      not_decided=['the round-trip clause (backward heuristic, is_html) is value-level'],
      technique='clamp dominance; table agreement')
@@ -125,7 +125,7 @@ prop('C13',
      assumptions=['strings handed to raw push() contain no newline'])
 
 prop('C14',
-     rules=['COV-MERGE', 'TAB-SNIPKEYS', ('PATH-STACK', ['markup.snippets', 'markup.utils'])],
+     rules=['COV-MERGE', 'TAB-SNIPKEYS', ('PATH-STACK', ['markup.snippets', 'markup.utils']), 'OWN-CACHEUSE'],
      explanation='All data written on an alias (attributes, text, repeater, self-closing mark) is transferred to every top-level node of the definition and '
                  'children go to the last-child chain (N); multi-key tables do not shadow each other (D).',
      not_decided=['"expands exactly like its definition" (value-level)'],
@@ -153,7 +153,7 @@ prop('C17',
 
 prop('C18',
      rules=['SCN-CORE', ('SCN-SPAN', TOK_MODS), ('SCN-REST', TOK_MODS), ('SCN-OVER', TOK_MODS), ('SCN-PROGRESS', TOK_MODS),
-            ('EXC-NUMCONV', TOK_MODS), ('EXC-RAISE/expand', TOK_MODS + ['scanner']), ('CNT-DEPTH', TOK_MODS), ('SCN-SKIP', TOK_MODS), ('SIB-QUOTE', TOK_MODS)],
+            ('EXC-NUMCONV', TOK_MODS), ('EXC-RAISE/expand', TOK_MODS + ['scanner']), ('CNT-DEPTH', TOK_MODS), ('SCN-SKIP', TOK_MODS), ('SIB-QUOTE', TOK_MODS), ('DEC-CHARCLASS', TOK_MODS + ['scanner_utils'])],
      explanation='(partial, SCN-* cursor discipline rules being built) digit runs are converted only after a successful run with start set.',
      not_decided=['span tiling until SCN-* exists'],
      technique='cursor discipline dataflow')
@@ -161,7 +161,7 @@ prop('C18',
 prop('C19',
      rules=['EXC-RAISE/math', 'DEC-PRIO', 'TAB-MATHOPS', ('RNG-CLAMP', ['math_expression']), ('EXC-NUMCONV', ['math_expression']),
             ('SCN-OVER', ['math_expression']), ('SCN-PROGRESS', ['math_expression']), ('SCN-REST', ['math_expression']),
-            'RNG-BALANCED', ('CNT-DEPTH', ['math_expression']), ('OWN-GLOBAL', ['math_expression']), ('EXC-INDEX', ['math_expression'])],
+            'RNG-BALANCED', ('CNT-DEPTH', ['math_expression']), ('DEC-CHARCLASS', ['math_expression', 'scanner_utils']), ('OWN-GLOBAL', ['math_expression']), ('EXC-INDEX', ['math_expression'])],
      explanation='Only MathExpressionException is raised explicitly (D); the precedence table satisfies the documented orderings and a prefix sign never '
                  'reduces a pending operator (N, finite table); every accepted operator has an evaluator with the right operand order (D); extract clamps its position (D).',
      not_decided=['arithmetic values'],
